@@ -38,8 +38,13 @@ type c17File struct {
 }
 
 type c17Tree struct {
-	root  string
-	cwd   string
+	root string
+	cwd  string
+	// gen is the content generation: every file holds the rule of host
+	// g<gen>-<n>.example.  bump rewrites all files with the next generation,
+	// so that content cached by an earlier server instance can be told from
+	// a read by the current one.
+	gen   int
 	files []*c17File
 	byAbs map[string]*c17File
 	// subdirs maps a directory inside the tree to the names of its
@@ -64,6 +69,42 @@ var c17TreeFiles = []string{
 
 func c17Rule(host string) string { return "||" + host + "^" }
 
+func c17FileBody(f *c17File) []byte {
+	return []byte(fmt.Sprintf("! Title: tree file %d\n%s\n", f.N, c17Rule(f.Host)))
+}
+
+// bump rewrites every tree file with the rule of the next generation.  The
+// new content is written under another name and renamed over the file, so
+// that the monitor itself never opens a tree file (the syscall-level observer
+// counts every open of one).
+func (tr *c17Tree) bump() error {
+	tr.gen++
+	for _, f := range tr.files {
+		f.Host = fmt.Sprintf("g%d-%d.example", tr.gen, f.N)
+		tmp := f.Abs + ".c17tmp"
+		if err := os.WriteFile(tmp, c17FileBody(f), 0o644); err != nil {
+			return err
+		}
+		if err := os.Rename(tmp, f.Abs); err != nil {
+			return err
+		}
+	}
+	return nil
+}
+
+// c17SeenFiles returns the numbers of the tree files whose rule of the
+// current generation occurs in b.
+func (tr *c17Tree) c17SeenFiles(b []byte) (ns []int) {
+	for _, m := range c17FileHostRe.FindAllSubmatch(b, -1) {
+		g, _ := strconv.Atoi(string(m[1]))
+		n, _ := strconv.Atoi(string(m[2]))
+		if g == tr.gen && n >= 1 && n <= len(tr.files) {
+			ns = append(ns, n)
+		}
+	}
+	return ns
+}
+
 func c17BuildTree(root string) (tr *c17Tree, err error) {
 	tr = &c17Tree{root: root, cwd: filepath.Join(root, "cwd"), byAbs: map[string]*c17File{},
 		subdirs: map[string][]string{}}
@@ -72,9 +113,8 @@ func c17BuildTree(root string) (tr *c17Tree, err error) {
 		if err = os.MkdirAll(filepath.Dir(abs), 0o755); err != nil {
 			return nil, err
 		}
-		f := &c17File{N: i + 1, Abs: abs, Host: fmt.Sprintf("f-%d.example", i+1)}
-		body := fmt.Sprintf("! Title: tree file %d\n%s\n", f.N, c17Rule(f.Host))
-		if err = os.WriteFile(abs, []byte(body), 0o644); err != nil {
+		f := &c17File{N: i + 1, Abs: abs, Host: fmt.Sprintf("g0-%d.example", i+1)}
+		if err = os.WriteFile(abs, c17FileBody(f), 0o644); err != nil {
 			return nil, err
 		}
 		tr.files = append(tr.files, f)
@@ -582,7 +622,7 @@ func c17PatternPool(r string) (fixed []c17Cfg, pool []string) {
 // One DNSFilter under test
 // ---------------------------------------------------------------------------
 
-var c17FileHostRe = regexp.MustCompile(`f-(\d+)\.example`)
+var c17FileHostRe = regexp.MustCompile(`g(\d+)-(\d+)\.example`)
 
 type c17Env struct {
 	t       *testing.T
@@ -611,10 +651,24 @@ func (e *c17Env) nextCtl() (u, host string) {
 }
 
 func (e *c17Env) newInst(cfg c17Cfg, filters, allow []FilterYAML) (in *c17Inst, err error) {
+	return e.newInstAt(cfg, filters, allow, "")
+}
+
+// newInstAt is newInst on an existing data directory (a restart) when
+// dataDir is not empty.
+func (e *c17Env) newInstAt(cfg c17Cfg, filters, allow []FilterYAML, dataDir string) (in *c17Inst, err error) {
 	in = &c17Inst{env: e, cfg: cfg, handlers: map[string]http.HandlerFunc{}, baseURL: map[bool]string{},
 		baseID: map[bool]int{}, allowed: map[int]bool{}}
-	in.dataDir, err = os.MkdirTemp(e.scratch, "data")
-	if err != nil {
+	if e.strace {
+		// Marker for the syscall-level observer: the open of this name (it
+		// does not exist) starts the section of the pattern list of this
+		// instance (instances never overlap in time).
+		b, _ := json.Marshal(cfg.Patterns)
+		_, _ = os.Open(filepath.Join(e.tr.root, c17MarkerDir, url.PathEscape(string(b))))
+	}
+	if dataDir != "" {
+		in.dataDir = dataDir
+	} else if in.dataDir, err = os.MkdirTemp(e.scratch, "data"); err != nil {
 		return nil, err
 	}
 	for _, f := range e.tr.files {
@@ -635,7 +689,9 @@ func (e *c17Env) newInst(cfg c17Cfg, filters, allow []FilterYAML) (in *c17Inst, 
 		WhitelistFilters: allow,
 	}, nil)
 	if err != nil {
-		_ = os.RemoveAll(in.dataDir)
+		if dataDir == "" {
+			_ = os.RemoveAll(in.dataDir)
+		}
 		return nil, err
 	}
 	in.d.Start()
@@ -717,9 +773,8 @@ func (in *c17Inst) storedContent() (byFile map[string][]int) {
 			return nil
 		}
 		in.env.rep.Event("stored_files_scanned")
-		for _, m := range c17FileHostRe.FindAllSubmatch(b, -1) {
-			n, _ := strconv.Atoi(string(m[1]))
-			byFile[p] = append(byFile[p], n)
+		if ns := in.env.tr.c17SeenFiles(b); len(ns) > 0 {
+			byFile[p] = ns
 		}
 		return nil
 	})
@@ -815,6 +870,9 @@ type c17Obs struct {
 	BodyFiles   []int            `json:"tree_files_seen_in_response_body,omitempty"`
 	CheckHost   map[string][]int `json:"hosts_matched_by_checkhost,omitempty"`
 	Accepted    bool             `json:"accepted"`
+	// Restart variants of the refresh entry point only.
+	CachedBefore *bool `json:"cached_list_file_present_at_restart,omitempty"`
+	CacheChanged *bool `json:"cached_list_file_replaced_by_this_refresh,omitempty"`
 }
 
 func c17Trunc(s string) string {
@@ -983,12 +1041,9 @@ func (in *c17Inst) judge(loc c17Loc, ex c17Expect, ob *c17Obs) {
 	}
 }
 
-func c17BodyFiles(bodies []string) (ns []int) {
+func (tr *c17Tree) c17BodyFiles(bodies []string) (ns []int) {
 	for _, b := range bodies {
-		for _, m := range c17FileHostRe.FindAllStringSubmatch(b, -1) {
-			n, _ := strconv.Atoi(m[1])
-			ns = append(ns, n)
-		}
+		ns = append(ns, tr.c17SeenFiles([]byte(b))...)
 	}
 	return ns
 }
@@ -1012,7 +1067,7 @@ func (in *c17Inst) observe(ob *c17Obs, s string, white bool, ctl string, forcePr
 		}
 	}
 	ob.StoredFiles = in.storedContent()
-	ob.BodyFiles = c17BodyFiles(ob.Bodies)
+	ob.BodyFiles = in.env.tr.c17BodyFiles(ob.Bodies)
 	if ob.Accepted || ob.Listed || len(ob.StoredFiles) > 0 || forceProbe {
 		ob.CheckHost = in.probe(want...)
 		// The handlers also queue an asynchronous engine rebuild; a rebuild
@@ -1114,38 +1169,151 @@ func (in *c17Inst) addBases() bool {
 	return true
 }
 
-// refreshBatch builds a fresh DNSFilter whose configuration already holds
-// the locations (as a hand-edited configuration file would) and refreshes.
-func (e *c17Env) refreshBatch(cfg c17Cfg, locs []c17Loc, whites []bool) {
-	var filters, allow []FilterYAML
-	for i, l := range locs {
-		f := FilterYAML{Enabled: true, URL: l.S, Name: fmt.Sprintf("hand-edited %d", i), Filter: Filter{ID: 1000 + i}}
-		if whites[i] {
-			allow = append(allow, f)
+// c17RestartModes are the variants of the refresh entry point in which the
+// DNSFilter under test starts on a data directory that already holds cached
+// list files for the ids of its lists (a restart).
+var c17RestartModes = []string{"cache-prepopulated", "after-real-refresh", "patterns-changed"}
+
+// c17AllPatterns allows every file of the tree.
+func (tr *c17Tree) c17AllPatterns() (ps []string) {
+	g := tr.root
+	for depth := 1; depth <= 6; depth++ {
+		g += "/*"
+		ps = append(ps, g)
+	}
+	return ps
+}
+
+func c17CacheFile(dataDir string, id int) string {
+	return filepath.Join(dataDir, filterDir, strconv.Itoa(id)+".txt")
+}
+
+// refreshBatch builds a DNSFilter whose configuration already holds the
+// locations (as a hand-edited configuration file would) and refreshes.
+//
+// mode "" starts on an empty data directory.  The restart modes first give
+// every list id a cached file in the data directory the instance under test
+// starts on:
+//
+//   - cache-prepopulated: the monitor writes a valid one-rule list per id;
+//   - after-real-refresh: an earlier instance with the same pattern list
+//     and http lists under the same ids refreshed successfully;
+//   - patterns-changed: an earlier instance with the same locations but a
+//     pattern list that allows the whole tree refreshed them; then every
+//     tree file gets new content (so that a read by the instance under test
+//     is distinguishable from the cache) and the instance under test starts
+//     with the tightened (possibly empty) pattern list.
+//
+// The oracle is the one of the plain refresh, for the patterns of the
+// instance in force; "taken" means that the cached file was replaced.
+func (e *c17Env) refreshBatch(cfg c17Cfg, locs []c17Loc, whites []bool, mode string) {
+	rep := e.rep
+	mkLists := func(urlOf func(i int) string) (filters, allow []FilterYAML) {
+		for i := range locs {
+			f := FilterYAML{Enabled: true, URL: urlOf(i), Name: fmt.Sprintf("hand-edited %d", i), Filter: Filter{ID: 1000 + i}}
+			if whites[i] {
+				allow = append(allow, f)
+			} else {
+				filters = append(filters, f)
+			}
+		}
+		return filters, allow
+	}
+	entryName := "refresh"
+	rounds := 2
+	dataDir := ""
+	if mode != "" {
+		entryName = "refresh(restart:" + mode + ")"
+		rounds = 1
+	}
+	refreshBoth := func(in *c17Inst) (sts []int, bodies []string) {
+		for _, w := range []bool{false, true} {
+			st, body := in.call(http.MethodPost, "/control/filtering/refresh", map[string]any{"whitelist": w})
+			sts, bodies = append(sts, st), append(bodies, body)
+		}
+		return sts, bodies
+	}
+	switch mode {
+	case "cache-prepopulated":
+		var err error
+		if dataDir, err = os.MkdirTemp(e.scratch, "data"); err == nil {
+			err = os.MkdirAll(filepath.Join(dataDir, filterDir), 0o755)
+		}
+		for i := 0; err == nil && i < len(locs); i++ {
+			err = os.WriteFile(c17CacheFile(dataDir, 1000+i),
+				[]byte(fmt.Sprintf("! Title: cached %d\n||cache-%d.example^\n", i, i)), 0o644)
+		}
+		if err != nil {
+			rep.Inconcl("could not pre-populate a data directory: " + err.Error())
+			return
+		}
+	case "after-real-refresh", "patterns-changed":
+		cfg1 := cfg
+		urlOf := func(i int) string { return locs[i].S }
+		if mode == "after-real-refresh" {
+			urls := make([]string, len(locs))
+			for i := range urls {
+				urls[i], _ = e.nextCtl()
+			}
+			urlOf = func(i int) string { return urls[i] }
 		} else {
-			filters = append(filters, f)
+			cfg1 = c17Cfg{Kind: cfg.Kind, Patterns: append(e.tr.c17AllPatterns(), cfg.Patterns...)}
+		}
+		f1, a1 := mkLists(urlOf)
+		in1, err := e.newInst(cfg1, f1, a1)
+		if err != nil && cfg.Kind == "malformed-pattern" {
+			rep.Event("malformed_pattern_lists_refused_at_start")
+			return
+		} else if err != nil {
+			rep.Inconcl("filtering.New for the first instance of a restart batch failed: " + err.Error())
+			return
+		}
+		refreshBoth(in1)
+		in1.d.Close()
+		dataDir = in1.dataDir
+		if mode == "patterns-changed" {
+			if err = e.tr.bump(); err != nil {
+				rep.Inconcl("could not rewrite the tree files: " + err.Error())
+				_ = os.RemoveAll(dataDir)
+				return
+			}
 		}
 	}
-	in, err := e.newInst(cfg, filters, allow)
+	prior := map[int][]byte{}
+	if mode != "" {
+		for i := range locs {
+			if b, err := os.ReadFile(c17CacheFile(dataDir, 1000+i)); err == nil {
+				prior[1000+i] = b
+				rep.Event("cached_list_files_present_at_restart")
+			}
+		}
+	}
+	filters, allow := mkLists(func(i int) string { return locs[i].S })
+	in, err := e.newInstAt(cfg, filters, allow, dataDir)
 	if err != nil {
-		e.rep.Inconcl("filtering.New for a refresh batch failed: " + err.Error())
+		if dataDir != "" {
+			_ = os.RemoveAll(dataDir)
+		}
+		if cfg.Kind == "malformed-pattern" {
+			rep.Event("malformed_pattern_lists_refused_at_start")
+			return
+		}
+		rep.Inconcl("filtering.New for a refresh batch failed: " + err.Error())
 		return
 	}
 	defer in.close()
-	e.rep.Event("refresh_batches")
+	rep.Event("refresh_batches")
+	if mode != "" {
+		rep.Event("restart_batches:" + mode)
+	}
 	var ctl []string
 	for _, l := range locs {
 		if l.CtlHost != "" {
 			ctl = append(ctl, l.CtlHost)
 		}
 	}
-	for round := 1; round <= 2; round++ {
-		var sts []int
-		var bodies []string
-		for _, w := range []bool{false, true} {
-			st, body := in.call(http.MethodPost, "/control/filtering/refresh", map[string]any{"whitelist": w})
-			sts, bodies = append(sts, st), append(bodies, body)
-		}
+	for round := 1; round <= rounds; round++ {
+		sts, bodies := refreshBoth(in)
 		entries := in.status()
 		stored := in.storedContent()
 		hits := in.probe(ctl...)
@@ -1154,7 +1322,7 @@ func (e *c17Env) refreshBatch(cfg c17Cfg, locs []c17Loc, whites []bool) {
 				continue // the second refresh is evaluated for a quarter of the locations
 			}
 			ex := c17Oracle(cfg.Patterns, e.tr.cwd, l.S)
-			ob := &c17Obs{Entry: "refresh", Whitelist: whites[i]}
+			ob := &c17Obs{Entry: entryName, Whitelist: whites[i]}
 			if round == 2 {
 				ob.Entry = "refresh(second)"
 			}
@@ -1183,11 +1351,35 @@ func (e *c17Env) refreshBatch(cfg c17Cfg, locs []c17Loc, whites []bool) {
 					}
 				}
 			}
-			ob.BodyFiles = c17BodyFiles(bodies)
+			ob.BodyFiles = e.tr.c17BodyFiles(bodies)
 			// At refresh nothing is "accepted" by a status code; the list
 			// counts as taken when it has rules or a stored file.
 			ob.Accepted = ob.RulesCount > 0 || len(ob.StoredFiles) > 0
-			in.judgeRefresh(l, ex, ob)
+			lj := l
+			if mode != "" {
+				// After a restart the rule count and the stored file may
+				// come from the cache; the list counts as taken when the
+				// cached file was replaced by this refresh.
+				cur, rerr := os.ReadFile(c17CacheFile(in.dataDir, id))
+				old, had := prior[id]
+				changed := (rerr == nil) != had || (rerr == nil && !bytes.Equal(cur, old))
+				ob.CacheChanged, ob.CachedBefore = &changed, &had
+				if !changed {
+					ob.RulesCount = 0
+				} else {
+					rep.Event("cached_list_files_replaced_by_refresh_after_restart")
+				}
+				ob.Accepted = changed || len(ob.StoredFiles) > 0
+				if mode == "patterns-changed" {
+					// The http control has the same content as its cache:
+					// it is not fetched "anew" observably.
+					lj.CtlHost = ""
+				}
+				if had && !ex.IsHTTP && !ex.Liberal {
+					rep.Event("restart_cases:cached_list_whose_location_is_outside_patterns")
+				}
+			}
+			in.judgeRefresh(lj, ex, ob)
 		}
 		// Content that cannot be attributed to a list id still must be
 		// inside the patterns.
@@ -1203,7 +1395,7 @@ func (e *c17Env) refreshBatch(cfg c17Cfg, locs []c17Loc, whites []bool) {
 					}
 					if !attributed {
 						e.rep.Violate("unsafe-read:refresh:unattributed", "content of a file outside the patterns in "+p,
-							map[string]any{"safe_fs_patterns": cfg.Patterns, "file": e.tr.files[n-1], "stored_in": p, "batch": locs})
+							map[string]any{"safe_fs_patterns": cfg.Patterns, "file": e.tr.files[n-1], "stored_in": p, "batch": locs, "restart_mode": mode})
 					}
 				}
 			}
@@ -1218,7 +1410,7 @@ func (e *c17Env) refreshBatch(cfg c17Cfg, locs []c17Loc, whites []bool) {
 				}
 				if !attributed {
 					e.rep.Violate("unsafe-read:refresh:unattributed", "CheckHost matches the rule of a file outside the patterns",
-						map[string]any{"safe_fs_patterns": cfg.Patterns, "file": f, "list_ids": ids, "batch": locs})
+						map[string]any{"safe_fs_patterns": cfg.Patterns, "file": f, "list_ids": ids, "batch": locs, "restart_mode": mode})
 				}
 			}
 		}
@@ -1327,12 +1519,6 @@ func (e *c17Env) c17Locations(rng *rand.Rand, cfg c17Cfg, nRandom int) (locs []c
 func (e *c17Env) runConfig(rng *rand.Rand, cfg c17Cfg, nRandom int) {
 	rep := e.rep
 	rep.Class("config:" + cfg.Kind)
-	if e.strace {
-		// Marker for the syscall-level observer: the open of this name (it
-		// does not exist) starts the section of this pattern list.
-		b, _ := json.Marshal(cfg.Patterns)
-		_, _ = os.Open(filepath.Join(e.tr.root, c17MarkerDir, url.PathEscape(string(b))))
-	}
 	locs := e.c17Locations(rng, cfg, nRandom)
 	in, err := e.newInst(cfg, nil, nil)
 	if err != nil && cfg.Kind == "malformed-pattern" {
@@ -1394,7 +1580,10 @@ func (e *c17Env) runConfig(rng *rand.Rand, cfg c17Cfg, nRandom int) {
 		for i := range whites {
 			whites[i] = rng.Intn(3) == 0
 		}
-		e.refreshBatch(cfg, part, whites)
+		e.refreshBatch(cfg, part, whites, "")
+		for _, mode := range c17RestartModes {
+			e.refreshBatch(cfg, part, whites, mode)
+		}
 	}
 }
 
@@ -1443,11 +1632,13 @@ func c17Run(t *testing.T, rep *verifkit.Report, strace bool) {
 
 	// Conclusiveness.
 	need := map[string]int{
-		"reads_expected_and_observed":             50,
-		"reads_observed_of_files_inside_patterns": 50,
-		"http_controls_accepted":                  20,
-		"unsafe_locations_refused":                1000,
-		"checkhost_probes":                        1000,
+		"reads_expected_and_observed":                                  50,
+		"reads_observed_of_files_inside_patterns":                      50,
+		"http_controls_accepted":                                       20,
+		"unsafe_locations_refused":                                     1000,
+		"checkhost_probes":                                             1000,
+		"restart_cases:cached_list_whose_location_is_outside_patterns": 1000,
+		"cached_list_files_replaced_by_refresh_after_restart":          100,
 	}
 	for k, n := range need {
 		if rep.EventCount(k) < n {
@@ -1455,7 +1646,9 @@ func c17Run(t *testing.T, rep *verifkit.Report, strace bool) {
 		}
 	}
 	for _, k := range []string{"match:raw-string-only", "match:cleaned-path-only", "entry:add_url", "entry:set_url",
-		"entry:set_url(disabled-then-enabled)", "entry:refresh", "entry:refresh(second)"} {
+		"entry:set_url(disabled-then-enabled)", "entry:refresh", "entry:refresh(second)",
+		"entry:refresh(restart:cache-prepopulated)", "entry:refresh(restart:after-real-refresh)",
+		"entry:refresh(restart:patterns-changed)"} {
 		if rep.ClassCount(k) < 30 {
 			rep.Inconcl(fmt.Sprintf("class %q has only %d cases", k, rep.ClassCount(k)))
 		}
@@ -1464,7 +1657,7 @@ func c17Run(t *testing.T, rep *verifkit.Report, strace bool) {
 
 func TestVerifC17(t *testing.T) {
 	rep := verifkit.New("C17", "paths",
-		"case = (safe_fs_patterns list, location string, entry point in {add_url, set_url, set_url on a disabled list then enabling it, refresh of a list written into the configuration, second refresh}); the operation runs against a real DNSFilter (captured HTTP handlers) over a tree of 26 files that each hold a unique rule; content of a file may become observable (stored list file, response body, rule count, CheckHost) only if its cleaned absolute path matches a pattern by filepath.Match; non-trivial = some reading of the location names an existing file; distinct by (entry point, patterns, location, block/allow)")
+		"case = (safe_fs_patterns list, location string, entry point in {add_url, set_url, set_url on a disabled list then enabling it, refresh of a list written into the configuration, second refresh, and the same refresh after a restart on a data directory that already holds cached files for the list ids: written by the monitor / left by an earlier instance that refreshed http lists under those ids / left by an earlier instance with a wider pattern list and the same locations}); the operation runs against a real DNSFilter (captured HTTP handlers) over a tree of 26 files that each hold a unique rule; content of a file may become observable (stored list file, response body, rule count, CheckHost) only if its cleaned absolute path matches a pattern by filepath.Match; non-trivial = some reading of the location names an existing file; distinct by (entry point, patterns, location, block/allow)")
 	defer func() {
 		if err := rep.Write(); err != nil {
 			t.Fatal(err)
